@@ -95,12 +95,23 @@ def Defn.freshEq (d : Defn) : Bool :=
   | .ok f => d.eqv f
   | .error _ => false
 
-/-- `conflicting_pairs(left, right)` -/
+/-- `conflicting_pairs(left, right)`: `left._objects & right._objects` is
+`collections.abc.Set.__and__`, i.e. `Unique(v for v in right._objects if v in left._objects)`:
+the common names are enumerated in the order of the RIGHT operand (likewise the properties) -/
 def conflicts (l r : Defn) : List (Name × Name) :=
-  let objects := l.objs.filter r.objs.contains
-  let properties := l.props.filter r.props.contains
+  let objects := r.objs.filter l.objs.contains
+  let properties := r.props.filter l.props.contains
   objects.flatMap fun o => properties.filterMap fun p =>
     if l.pairs.contains (o, p) != r.pairs.contains (o, p) then some (o, p) else none
+
+/-- the pairs listed in the `ValueError` message of `union` / `intersection` (and `*_update`) -/
+def Defn.conflictList (d other : Defn) : List (Name × Name) := conflicts d other
+
+/-- `Definition.shape` -/
+def Defn.shape (d : Defn) : Nat × Nat := (d.objs.length, d.props.length)
+
+/-- numerator of `Definition.fill_ratio`: `len(self._pairs)` -/
+def Defn.fillCount (d : Defn) : Nat := d.pairs.length
 
 /-- editing operations (arguments already well typed) -/
 inductive Op where
@@ -172,6 +183,9 @@ def Defn.step (d : Defn) : Op → Except Err (Defn × List Name)
     else .ok (⟨uIand d.objs other.objs, uIand d.props other.props, d.pairs.filter other.pairs.contains⟩, [])
 
 /-! ### deriving operations (new, independent value) -/
+
+/-- `Definition.copy()`: an independent definition with the same contents -/
+def Defn.copy (d : Defn) : Defn := ⟨d.objs, d.props, d.pairs⟩
 
 /-- `Definition.inverted()` -/
 def Defn.inverted (d : Defn) : Defn :=
